@@ -165,6 +165,18 @@ class Session:
                 data, meta = self.wire(ev[1], ev[2] if len(ev) > 2 else None)
                 extra["sent"] = meta
                 self.peer.send(data)
+            elif kind == "msg+close":
+                # an inbound message and a local stop pending in the same tick
+                data, meta = self.wire(ev[1], None)
+                extra["sent"] = meta
+                self.peer.send(data)
+                self.d.close()
+                settle = SETTLE + 2.0
+            elif kind == "msg+eof":
+                data, meta = self.wire(ev[1], None)
+                extra["sent"] = meta
+                self.peer.send(data)
+                self.peer.close()
             elif kind == "eof":
                 self.peer.close()
             elif kind == "close":
@@ -213,11 +225,20 @@ class Session:
             "req-otherhost": lambda: node.app_request(self.idseq, hbh=hbh, dest_host="elsewhere.example"),
             "req-otherrealm": lambda: node.app_request(self.idseq, hbh=hbh, dest_realm="realm.elsewhere"),
             "dwr+dwr": lambda: node.dwr(hbh, e2e) + node.dwr(e2e ^ 0x55, hbh ^ 0xaa),
+            "app+dpr": lambda: node.app_request(self.idseq, hbh=hbh ^ 1) + node.dpr(hbh, e2e),
+            "dwr+dpr": lambda: node.dwr(hbh, e2e) + node.dpr(e2e ^ 0x55, hbh ^ 0xaa),
+            "cer+dwr": lambda: node.cer(hbh, e2e, apps=apps) + node.dwr(e2e ^ 0x55, hbh ^ 0xaa),
             "dwr+app": lambda: node.dwr(hbh, e2e) + node.app_request(self.idseq, hbh=hbh ^ 1),
         }
         data = B[what]()
         if what == "dwr+dwr":
             meta["requests"] = [(280, hbh, e2e), (280, e2e ^ 0x55, hbh ^ 0xaa)]
+        elif what == "app+dpr":
+            meta["requests"] = [(282, hbh, e2e)]
+        elif what == "dwr+dpr":
+            meta["requests"] = [(280, hbh, e2e), (282, e2e ^ 0x55, hbh ^ 0xaa)]
+        elif what == "cer+dwr":
+            meta["requests"] = [(257, hbh, e2e), (280, e2e ^ 0x55, hbh ^ 0xaa)]
         elif what in ("cer", "dwr", "dpr", "dwr+app"):
             meta["requests"] = [({"cer": 257, "dwr": 280, "dpr": 282, "dwr+app": 280}[what], hbh, e2e)]
         return data, meta
@@ -273,7 +294,7 @@ def judge(role, prev, o, history_ctx):
     # G4: Open only through R4 / R8
     if ns in OPENS and ps not in OPENS:
         ok = (role == "client" and ps == "Wait-I-CEA" and what == "cea-echo") or \
-             (role == "server" and ps == "Closed" and what == "cer")
+             (role == "server" and ps == "Closed" and what in ("cer", "cer+dwr"))
         if not ok:
             errs.append((sig(f"G4:opened-without-capabilities-exchange:{ps}:{kind if what is None else what}"),
                          f"G4: state became {ns} from {ps} on {ev}"))
@@ -307,14 +328,21 @@ def judge(role, prev, o, history_ctx):
             allow({"Closed"}, "R7")
     else:
         if ps == "Closed" and kind == "msg" and o["conn"] != "none":
-            if what == "cer":
+            if what in ("cer", "cer+dwr"):
                 allow({"R-Open"}, "R8")
             else:
                 allow({"Closed"}, "R9")
                 if o["delivered"]:
                     errs.append((sig("R9:delivered"), f"R9: {o['delivered']} handed to the application while Closed"))
 
-    if ps in OPENS:
+    if ps in OPENS and kind == "msg+close":
+        allow({"Closing", "Closed"}, "R16")
+        if len(emitted(282, True)) != 1:
+            errs.append((sig(f"R16:dpr-count:pending-{what if what else ev[1]}"),
+                         f"R16: close() with {ev[1]} pending emitted {len(emitted(282, True))} DPR(s)"))
+    elif ps in OPENS and kind == "msg+eof":
+        allow({"Closed"}, "R19")
+    elif ps in OPENS:
         if kind == "msg":
             if what == "dwr":
                 allow({ps}, "R10")
@@ -328,6 +356,12 @@ def judge(role, prev, o, history_ctx):
                 allow({ps, "Closing", "Closed"}, "R11")
             elif what in ("cer", "cer-otherhost", "cer-incomplete", "cer-otherrealm"):
                 allow({ps} if what == "cer" else {ps, "Closing", "Closed"}, "R12")
+            elif what in ("app+dpr", "dwr+dpr"):
+                allow({"Closed"}, "R13")
+                if len(emitted(282, False)) != 1:
+                    errs.append((sig(f"R13:dpa-count:{what}"), f"R13: {what} in one read answered by {len(emitted(282, False))} DPA(s)"))
+                if what == "app+dpr" and len(o["delivered"]) != 1:
+                    errs.append((sig("R14:delivery:app+dpr"), f"R14: request before the DPR handed over {len(o['delivered'])} times"))
             elif what in ("dpr", "dpr-otherhost"):
                 allow({"Closed"}, "R13")
                 if what == "dpr" and len(emitted(282, False)) != 1:
@@ -471,11 +505,13 @@ class FsmModel:
                 evs += [("msg", m) for m in MSGS_WAIT_CEA]
             elif state in OPENS:
                 evs += [("msg", m) for m in MSGS_OPEN]
+                evs += [("msg", "app+dpr"), ("msg", "dwr+dpr")]
+                evs += [("msg+close", "app-req"), ("msg+close", "dwr"), ("msg+eof", "app-req"), ("msg+eof", "dwr")]
                 evs += [("send",), ("idle", 4.0 if self.watchdog > 10 else 2.0 * self.watchdog + 3.0)]
             elif state == "Closing":
                 evs += [("msg", m) for m in ("dpa", "dwr", "app-req", "dpr", "dwa")]
             elif state == "Closed" and self.role == "server":
-                evs += [("msg", m) for m in MSGS_SERVER_CLOSED]
+                evs += [("msg", m) for m in MSGS_SERVER_CLOSED + ["cer+dwr"]]
             evs.append(("eof",))
         if state in OPENS or state in ("Closing", "Wait-I-CEA"):
             evs.append(("close",))
